@@ -347,6 +347,7 @@ fn read_plan(req: &Value) -> ReadPlan {
         rest: req["rest"].as_u64().map(|x| x as usize).unwrap_or(usize::MAX),
         fail_at: req["fail_at"].as_u64().map(|x| x as usize),
         fail_kind: req["fail_kind"].as_str().unwrap_or("Other").to_string(),
+        fail_mode: req["fail_mode"].as_str().unwrap_or("sticky").to_string(),
     }
 }
 
